@@ -100,11 +100,14 @@ pub fn add_section_to_pe(mut pe_bytes: Vec<u8>, new_section_name: &str, mut new_
     // Because the section data is aligned to FileAlignment, there is (probably) a gap of padding after
     // the end of the section headers and before the data. We can put our new section header in there
     // without having to shuffle everything else up, if there is such a gap. If not, we will have to
-    // shuffle everything up by one FileAlignment, to create space for our new section header.
+    // shuffle everything up by a whole number of FileAlignments, to create space for our new section header.
     let orig_end_of_section_headers = section_headers_offset + orig_num_sections as usize * 40;
-    if align(orig_end_of_section_headers, file_alignment as usize) - orig_end_of_section_headers < 40 {
-        // No space, we'll need to bump everything up
-        let padding = vec![0 as u8; file_alignment as usize];
+    let gap = align(orig_end_of_section_headers, file_alignment as usize) - orig_end_of_section_headers;
+    if gap < 40 {
+        // No space, we'll need to bump everything up. One FileAlignment is enough unless it is very small,
+        // in which case we need as many as it takes to fit the 40 bytes of the new header.
+        let bump = align(40 - gap, file_alignment as usize);
+        let padding = vec![0 as u8; bump];
         pe_bytes.splice(orig_end_of_section_headers..orig_end_of_section_headers, padding).for_each(drop);
 
         // All the existing sections need their PointerToRawData offsetting to point to the offseted data
@@ -113,7 +116,7 @@ pub fn add_section_to_pe(mut pe_bytes: Vec<u8>, new_section_name: &str, mut new_
 
             let pointer_to_raw_data_offset = section_header_offset + 20;
             let orig_pointer_to_raw_data = read_field::<u32>(&pe_bytes, pointer_to_raw_data_offset)?;
-            let new_pointer_to_raw_data = orig_pointer_to_raw_data + file_alignment;
+            let new_pointer_to_raw_data = orig_pointer_to_raw_data + bump as u32;
             write_field::<u32>(&mut pe_bytes, pointer_to_raw_data_offset, new_pointer_to_raw_data as u32)?;
         }
     }
